@@ -14,7 +14,15 @@ pub fn pass_first(a: First) -> First {
 pub fn pass_second(a: Second) -> Second {
     a
 }
-pub fn pass_third(a: Third, b: First) -> (Third, First) {
+pub fn pass_third(a: Third) -> Third {
+    a
+}
+#[derive(Copy, Drop)]
+pub struct Fourth {}
+pub fn pass_fourth(a: Fourth) -> Fourth {
+    a
+}
+pub fn pair_up(a: Third, b: First) -> (Third, First) {
     (a, b)
 }
 pub fn keep(n: Never) -> Never {
